@@ -1,7 +1,7 @@
 CONSTANTS
   Shapes <- ShapesThorough
   FullMaskSize = 4
-  Precisions = {1, 2, 3}
+  Precisions = {1, 3}
   LabelSets <- LabelsThorough
   CommentSets <- CommentsThorough
 SPECIFICATION Spec
